@@ -7,6 +7,7 @@ One block `bx` of the left state may have, on the right, an extra first child `g
 group a begin row leaves inside its block).  `T` are the groups that are never traversed.
 -/
 import Rpft.Lemmas.CompileInsertNodes
+import Rpft.Lemmas.CompileInvA
 set_option linter.unusedSimpArgs false
 set_option linter.unusedVariables false
 namespace Rpft.Compile
@@ -23,12 +24,15 @@ structure Params where
   gx : Nat
   base₁ : St
   base₂ : St
+  /-- the special block is known to have a child already -/
+  hb : Prop
 
 structure Params.Ok (P : Params) : Prop where
   hρ : Injective P.ρ
   hν : Injective P.ν
   hγ : Injective P.γ
   hT : P.T P.bx
+  hfix : ∀ x, ¬ Invented x → P.ρ x = x
 
 /-- the nodes a group refers to -/
 def gnodes : Grp → List Nat
@@ -69,6 +73,13 @@ theorem mapGrpAt_block_bx (cs : List Nat) :
     mapGrpAt P P.bx (.block cs) = .block (P.gx :: cs.map P.γ) := by
   simp [mapGrpAt]
 
+theorem getElem?_push_lt' {α : Type} {a : Array α} {i : Nat} {x y : α} (h : a[i]? = some x) :
+    (a.push y)[i]? = some x := by
+  have hlt : i < a.size := (Array.getElem?_eq_some_iff.mp h).1
+  rw [Array.getElem?_push]
+  have : ¬ i = a.size := by omega
+  simp [this, h]
+
 /-- arena part of the simulation -/
 structure ASim (s₁ s₂ : St) : Prop where
   noArgs : s₂.noArgs = s₁.noArgs
@@ -79,6 +90,7 @@ structure ASim (s₁ s₂ : St) : Prop where
   ndom : ∀ i, s₁.nodes.size ≤ i → P.DN i
   gdom : ∀ j, s₁.groups.size ≤ j → P.DG j ∧ ¬ P.T j
   bxlt : P.bx < s₁.groups.size
+  bne : P.hb → ∃ c cs, s₁.groups[P.bx]? = some (.block (c :: cs))
   nodes : ∀ i n, P.DN i → s₁.nodes[i]? = some n → s₂.nodes[P.ν i]? = some (rnNode P.ρ n)
   groups : ∀ j g, P.DG j → s₁.groups[j]? = some g → s₂.groups[P.γ j]? = some (mapGrpAt P j g)
   closed : ∀ j g, P.DG j → s₁.groups[j]? = some g → (∀ i ∈ gnodes g, P.DN i) ∧ (∀ x ∈ grefs g, P.DG x)
@@ -172,7 +184,8 @@ theorem ASim.addNode {s₁ s₂ : St} (h : ASim P s₁ s₂) (n : NodeM) :
 theorem ASim.setGrp (ok : P.Ok) {s₁ s₂ : St} (h : ASim P s₁ s₂) {j : Nat} {old g' : Grp}
     (hd : P.DG j) (ho : s₁.groups[j]? = some old)
     (hn : ∀ i ∈ gnodes g', P.DN i) (hr : ∀ x ∈ grefs g', P.DG x)
-    (ht : ¬ P.T j → ∀ x ∈ grefs g', ¬ P.T x) :
+    (ht : ¬ P.T j → ∀ x ∈ grefs g', ¬ P.T x)
+    (hbn : P.hb → j = P.bx → ∃ c cs, g' = .block (c :: cs)) :
     ASim P { s₁ with groups := s₁.groups.setIfInBounds j g' }
       { s₂ with groups := s₂.groups.setIfInBounds (P.γ j) (mapGrpAt P j g') } := by
   have hlt : j < s₁.groups.size := (Array.getElem?_eq_some_iff.mp ho).1
@@ -184,10 +197,20 @@ theorem ASim.setGrp (ok : P.Ok) {s₁ s₂ : St} (h : ASim P s₁ s₂) {j : Nat
     by_cases hjx : j = x
     · subst hjx; simp only [hlt, if_true, Option.some.injEq] at hx; exact .inl ⟨rfl, hx.symm⟩
     · simp only [hjx, if_false] at hx; exact .inr ⟨fun e => hjx e.symm, hx⟩
-  refine { h with gsync := ?_, gdom := ?_, bxlt := ?_, groups := ?_, closed := ?_, ra := ?_, fr1g := ?_, fr2g := ?_ }
+  refine { h with gsync := ?_, gdom := ?_, bxlt := ?_, bne := ?_, groups := ?_, closed := ?_, ra := ?_, fr1g := ?_, fr2g := ?_ }
   · intro k; simpa using h.gsync k
   · intro x hx; exact h.gdom x (by simpa using hx)
   · simpa using h.bxlt
+  · intro hhb
+    by_cases hjb : j = P.bx
+    · obtain ⟨c, cs, e⟩ := hbn hhb hjb
+      refine ⟨c, cs, ?_⟩
+      subst hjb
+      simp [hlt, e]
+    · obtain ⟨c, cs, e⟩ := h.bne hhb
+      refine ⟨c, cs, ?_⟩
+      simp only [Array.getElem?_setIfInBounds, hjb, if_false]
+      exact e
   · intro x g hdx hx
     rcases get1 x g hx with ⟨rfl, rfl⟩ | ⟨hne, hx'⟩
     · simp [hlt2]
@@ -226,12 +249,15 @@ theorem ASim.addGrp {s₁ s₂ : St} (h : ASim P s₁ s₂) (g : Grp)
     by_cases hxs : x = s₁.groups.size
     · simp only [hxs, if_true, Option.some.injEq] at hx; exact .inl ⟨hxs, hx.symm⟩
     · simp only [hxs, if_false] at hx; exact .inr ⟨hxs, hx⟩
-  refine { h with gsync := ?_, gdom := ?_, bxlt := ?_, groups := ?_, closed := ?_, ra := ?_, fr1g := ?_, fr2g := ?_ }
+  refine { h with gsync := ?_, gdom := ?_, bxlt := ?_, bne := ?_, groups := ?_, closed := ?_, ra := ?_, fr1g := ?_, fr2g := ?_ }
   · intro k
     have := h.gsync (1 + k)
     simpa [Nat.add_assoc] using this
   · intro x hx; exact h.gdom x (by simp at hx; omega)
   · have := h.bxlt; simp; omega
+  · intro hhb
+    obtain ⟨c, cs, e⟩ := h.bne hhb
+    exact ⟨c, cs, getElem?_push_lt' e⟩
   · intro x g0 hdx hx
     rcases get1 x g0 hx with ⟨rfl, rfl⟩ | ⟨hne', hx'⟩
     · simp [h0, hm]
@@ -271,6 +297,7 @@ theorem ASim.congr {s₁ s₂ t₁ t₂ : St} (h : ASim P s₁ s₂)
   · rw [e1]; exact h.ndom
   · rw [e2]; exact h.gdom
   · rw [e2]; exact h.bxlt
+  · rw [e2]; exact h.bne
   · rw [e1, f1]; exact h.nodes
   · rw [e2, f2]; exact h.groups
   · rw [e2]; exact h.closed
